@@ -15,7 +15,7 @@ import (
 func init() { props["C12"] = runC12 }
 
 func runC12(h *hx.H) {
-	h.Rule = "every byte string of length <=2 over all 256 values and <=4 over a 24-byte structural alphabet (quick; <=3 over 256 and <=5 over the alphabet thorough), every token string of <=4 (quick) / <=5 (thorough) tokens over a 30-token alphabet, every single-token deletion / duplication / replacement and every truncation at a token boundary of the testdata corpus (smallest files in quick), nesting towers to depth 40; oracle: no panic in Parse / ResultFromAST, AST non-nil, error returned iff an error was reported (both reporter modes), every reported position inside the file; non-trivial = input on which the parser reported at least one error yet produced an AST"
+	h.Rule = "every byte string of length <=2 over all 256 values and <=4 over a 24-byte structural alphabet (quick; <=3 over 256 and <=5 over the alphabet thorough), every token string of <=4 (quick) / <=5 (thorough) tokens over a 30-token alphabet, every string of <=3 (thorough 4) tokens over an 18-token alphabet with invalid tokens (stray characters, bad escapes, bad numerals, unterminated literals) joined by every choice of six separators (space, newline, line comment, block comment, tab+comment+CRLF, nothing) bare and inside a message body, every single-token deletion / duplication / replacement and every truncation at a token boundary of the testdata corpus (smallest files in quick), nesting towers to depth 40; oracle: no panic in Parse / ResultFromAST, AST non-nil, error returned iff an error was reported (both reporter modes), every reported position inside the file; non-trivial = input on which the parser reported at least one error yet produced an AST"
 	run := func(src []byte) {
 		idx, ok := h.NextN()
 		if !ok {
@@ -36,6 +36,36 @@ func runC12(h *hx.H) {
 	alpha := []byte("a1 \n\t\"'\\/*;={}[]()<>.,-:\x00\x80\xff")
 	forEachByteString(alpha, nAlpha, func(b []byte) { run(b) })
 	forEachTokenString(tokenAlphabet, nTok, " ", func(s string) { run([]byte(s)) })
+	// token strings with invalid tokens and every separator (newlines and comments matter for the
+	// lexer's comment bookkeeping across error tokens)
+	mixed := []string{"message", "foo", "3", "\"s\"", "=", ";", "{", "}", "[", "@", "\x01", "\"\\q\"", "08", "0x", "'", "/*", "1e", "."}
+	seps := []string{" ", "\n", " // c\n", " /* c */ ", "\t// c\r\n", ""}
+	nMix := 3
+	if h.Thorough() {
+		nMix = 4
+	}
+	var recMix func(prefix string, n int)
+	recMix = func(prefix string, n int) {
+		for _, t := range mixed {
+			for _, sp := range seps {
+				if prefix == "" && sp != " " {
+					continue
+				}
+				s := t
+				if prefix != "" {
+					s = prefix + sp + t
+				}
+				run([]byte(s))
+				run([]byte(s + "\n"))
+				if n+1 == nMix {
+					run([]byte("message M { // c\n" + s + "\n optional int32 a = 1;\n}\n"))
+				} else {
+					recMix(s, n+1)
+				}
+			}
+		}
+	}
+	recMix("", 0)
 	// corpus mutants
 	names, texts := corpus()
 	limit := 60000
